@@ -642,12 +642,28 @@ def reader(prog, rep):
     ok = len(clears) == 1 and all(cr.dominates(clears[0], c) for c in ups)
     rep.check(ok, "SLOT", "callback_read clears read_cookie before any upstream call", cr.loc, "", function=cr.name, construct="slot-clear")
     inret = all(any(r.kids and r.kid(0) is not None and r.kid(0).strip() is c for r in cr.returns()) for c in ups)
-    rep.check(len(ups) == 3 and inret, "LIN", "callback_read: one upstream call per path, in return position", cr.loc, "found %d" % len(ups), function=cr.name, construct="lin")
+    # exactly one upstream call on every path to a return (however many call sites that takes): counted along the paths
+    from ..dataflow import Solver as _Solver
+    upset = set(id(c) for c in ups)
+    _cs = _Solver(cr, (0, 0), lambda st, e: (min(st[0] + 1, 2), min(st[1] + 1, 2)) if id(e) in upset else st, None,
+                  lambda a, b: (min(a[0], b[0]), max(a[1], b[1]))).run()
+    one = all(_cs.state_before(r) in (None, (1, 1)) or (r.kids and r.kid(0) is not None and id(r.kid(0).strip()) in upset and _cs.state_before(r.kid(0).strip()) == (0, 0))
+              for r in cr.returns())
+    rep.check(bool(ups) and inret and one, "LIN", "callback_read: one upstream call per path, in return position", cr.loc, "found %d" % len(ups), function=cr.name, construct="lin")
     fxr = Facts(cr).solve()
     lp = ("v", cr.params[1]["name"], cr.params[1]["id"])
     routes = {}
+    sites = []
     for c in ups:
         st_ = norm(c.arg(1))
+        if st_[0] == "v":
+            # the status handed over in a variable: what it was given, where (each assignment stands for a route)
+            for e in cr.all_elems():
+                if e.is_assign and e.op == "=" and norm(e.kid(0)) == st_ and cr.dominates(e, c) is not None:
+                    sites.append((e, norm(e.kid(1))))
+        else:
+            sites.append((c, st_))
+    for c, st_ in sites:
         if fxr.holds_before(c, "<", lp, ("c", 0)):
             routes["neg"] = st_
         elif fxr.holds_before(c, "==", lp, ("c", 0)):
